@@ -58,6 +58,8 @@ enum MCond {
     RouteType(u8),
     CommCount(u8, u32),
     Afi(Vec<u8>),
+    /// RPKI origin validation state of the route: 0 not found, 1 valid, 2 invalid
+    Rpki(u8),
 }
 
 impl MCond {
@@ -72,6 +74,7 @@ impl MCond {
             MCond::RouteType(..) => 15,
             MCond::CommCount(..) => 16,
             MCond::Afi(..) => 17,
+            MCond::Rpki(..) => 18,
         }
     }
 }
@@ -367,6 +370,9 @@ fn dests() -> Vec<(IpAddr, IpAddr, bool)> {
 }
 
 struct Ctx<'a> {
+    /// origin validation of the route as it stands (attributes may have been changed by earlier
+    /// statements): the table's own `validate`, which C12 decides
+    rpki: &'a dyn Fn(&RAttrs) -> Option<u8>,
     src: &'a SrcDesc,
     peer_addr: IpAddr,
     local_addr: IpAddr,
@@ -540,6 +546,7 @@ fn cond_holds(c: &MCond, pfx: &Pfx, a: &RAttrs, nh: Option<IpAddr>, ctx: &Ctx) -
         },
         MCond::CommCount(c, v) => cmp(*c, a.comm.as_ref().map(|x| x.len()).unwrap_or(0) as u32, *v),
         MCond::Afi(f) => f.contains(&(pfx.v6 as u8)),
+        MCond::Rpki(st) => (ctx.rpki)(a) == Some(*st),
     }
 }
 
@@ -608,6 +615,9 @@ fn apply_actions(act: &MActions, a: &mut RAttrs, nh: &mut Option<IpAddr>, ctx: &
 fn ref_eval(asg: &MAssign, pfx: &Pfx, a: &mut RAttrs, nh: &mut Option<IpAddr>, ctx: &Ctx, out: &mut Outcome) -> u8 {
     for p in &asg.pols {
         for s in &p.stmts {
+            if s.conds.iter().any(|c| matches!(c, MCond::Rpki(_))) {
+                out.hit("eval.statement-with-rpki-condition");
+            }
             if s.conds.iter().all(|c| cond_holds(c, pfx, a, *nh, ctx)) {
                 out.hit("eval.statement-applied");
                 apply_actions(&s.act, a, nh, ctx);
@@ -764,6 +774,15 @@ fn cond_from_json(j: &Json, m: &Model, out: &mut Outcome) -> (ConditionConfig, M
             (ConditionConfig::RouteType(match r { 0 => RouteType::Internal, 1 => RouteType::External, _ => RouteType::Local }), MCond::RouteType(r))
         }
         "cc" => (ConditionConfig::CommunityCount(comparison(j.at(1).as_u8()), j.at(2).as_u32()), MCond::CommCount(j.at(1).as_u8().min(2), j.at(2).as_u32())),
+        "rpki" => {
+            let v = j.at(1).as_u8().min(2);
+            let st = match v {
+                1 => table::RpkiValidationState::Valid,
+                2 => table::RpkiValidationState::Invalid,
+                _ => table::RpkiValidationState::NotFound,
+            };
+            (ConditionConfig::Rpki(st), MCond::Rpki(v))
+        }
         _ => {
             let f: Vec<u8> = j.at(1).arr().iter().map(|x| x.as_u8().min(1)).collect();
             (ConditionConfig::AfiSafiIn(f.iter().map(|x| if *x == 1 { Family::IPV6 } else { Family::IPV4 }).collect()), MCond::Afi(f))
@@ -949,7 +968,8 @@ impl Gen {
         if c.is_empty() { None } else { Some(c[self.rng.usize_below(c.len())].1.clone()) }
     }
     fn cond(&mut self) -> Json {
-        match self.rng.weighted(&[30, 8, 14, 12, 5, 5, 6, 4, 3, 3, 3, 4, 4, 3]) {
+        match self.rng.weighted(&[30, 8, 14, 12, 5, 5, 6, 4, 3, 3, 3, 4, 4, 3, 4]) {
+            14 => jarr!["rpki", self.rng.below(3)],
             k @ 0..=5 => {
                 let kind = k as u8;
                 let name = match self.known_set(kind) {
@@ -1312,6 +1332,14 @@ impl Check for PolicyHistories {
         let mut m = Model::default();
         let srcs = sources();
         let dsts = dests();
+        // VRPs for the "rpki" condition: enough to give the routes of the scenario all three states
+        let mut rpki = table::RpkiTable::new();
+        let cache: Arc<IpAddr> = Arc::new("192.0.2.53".parse().unwrap());
+        for (p, maxlen, asn) in [("0.0.0.0/1", 22u8, 65004u32), ("10.0.0.0/8", 32, 65001), ("10.128.0.0/9", 20, 65005), ("2001:db8::/32", 48, 65002), ("2001:db8:8000::/33", 44, 4_200_000_001)] {
+            if let Ok(n) = p.parse::<rustybgp_packet::IpNet>() {
+                rpki.insert(n, Arc::new(table::Roa::new(maxlen, asn, cache.clone())));
+            }
+        }
 
         'ops: for (i, op) in case.get("ops").map(|o| o.arr()).unwrap_or(&[]).iter().enumerate() {
             let tag = op.at(0).as_str();
@@ -1557,21 +1585,31 @@ impl Check for PolicyHistories {
                         };
                         // reference
                         let mut ea = route.a.clone();
-                        let (ctx, mut enh) = if dir == 0 {
-                            (Ctx { src: sd, peer_addr: sd.remote, local_addr: sd.local, is_confed: false, original_nh: route.nh }, route.nh)
-                        } else {
-                            (Ctx { src: sd, peer_addr, local_addr, is_confed, original_nh: route.nh }, default_nh.or(route.nh))
+                        let rpki_of = |a: &RAttrs| -> Option<u8> {
+                            let r = Route { pfx: route.pfx.clone(), a: a.clone(), tail: route.tail, nh: route.nh };
+                            rpki.validate(src, &net, &real_attrs(&r)).map(|v| match v.state {
+                                table::RpkiValidationState::NotFound => 0,
+                                table::RpkiValidationState::Valid => 1,
+                                table::RpkiValidationState::Invalid => 2,
+                            })
                         };
+                        let (ctx, mut enh) = if dir == 0 {
+                            (Ctx { rpki: &rpki_of, src: sd, peer_addr: sd.remote, local_addr: sd.local, is_confed: false, original_nh: route.nh }, route.nh)
+                        } else {
+                            (Ctx { rpki: &rpki_of, src: sd, peer_addr, local_addr, is_confed, original_nh: route.nh }, default_nh.or(route.nh))
+                        };
+                        // the daemon hands the VRP table to the evaluation only when the assignment says it needs it
+                        let rpki_arg = if rasg.needs_rpki { Some(&rpki) } else { None };
                         let edisp = ref_eval(&masg, &route.pfx, &mut ea, &mut enh, &ctx, &mut out);
                         // real
                         let (gdisp, gattrs, gnh) = if dir == 0 {
                             let mut nh = route.nh.map(to_nh);
-                            let (filtered, a2) = table::apply_import(rasg, None, src, &net, &attrs, &mut nh);
+                            let (filtered, a2) = table::apply_import(rasg, rpki_arg, src, &net, &attrs, &mut nh);
                             (if filtered { 2 } else { 1 }, a2, nh)
                         } else {
                             let mut a2 = attrs.clone();
                             let mut nh = default_nh.or(route.nh).map(to_nh);
-                            let d = table::apply_export(rasg, None, src, &net, &mut a2, &mut nh, route.nh.map(to_nh), is_confed, local_addr, peer_addr);
+                            let d = table::apply_export(rasg, rpki_arg, src, &net, &mut a2, &mut nh, route.nh.map(to_nh), is_confed, local_addr, peer_addr);
                             (disp_num(d), a2, nh)
                         };
                         out.hit(["eval.import", "eval.export"][dir]);
@@ -1683,7 +1721,7 @@ impl Check for PolicyHistories {
 
     fn info(&self) -> CheckInfo {
         CheckInfo {
-            rule: "history of add/merge/replace/delete on defined sets (6 kinds), statements, policies and the import/export assignments, mixed with evaluations of generated routes through apply_import/apply_export; sets use nested, overlapping and same-prefix entries on a per-case trunk; non-trivial = a well-formed route was evaluated against a live assignment or a change to a referenced object was attempted; distinct = hash of (result, in-use) and (expected, got) sequences".into(),
+            rule: "history of add/merge/replace/delete on defined sets (6 kinds), statements, policies and the import/export assignments, mixed with evaluations of generated routes through apply_import/apply_export (conditions: the six set kinds, AS_PATH length, next hop, LOCAL_PREF, MED, ORIGIN, route type, community count, address family, and the RPKI validation state against a fixed VRP table that is handed to the evaluation only when the assignment says it needs it, as the daemon does); sets use nested, overlapping and same-prefix entries on a per-case trunk; non-trivial = a well-formed route was evaluated against a live assignment or a change to a referenced object was attempted; distinct = hash of (result, in-use) and (expected, got) sequences".into(),
             components_real: vec![
                 "table::PolicyTable CRUD (add_defined_set, replace_defined_set, delete_defined_set, add_statement, delete_statement, add_policy, delete_policy, add_assignment, set_policy_assignment, delete_policy_assignment)".into(),
                 "table::apply_import / apply_export (Condition::evalute, Statement::apply, Policy::apply, PolicyAssignment::apply)".into(),
@@ -1733,6 +1771,7 @@ fn disposition_cause(asg: &MAssign, route: &Route, ctx: &Ctx) -> String {
                     MCond::RouteType(..) => "route-type",
                     MCond::CommCount(..) => "community-count",
                     MCond::Afi(..) => "afi-safi",
+                    MCond::Rpki(..) => "rpki",
                 };
                 if !kinds.contains(&k) {
                     kinds.push(k);
